@@ -631,6 +631,16 @@ def check_c12(an):
     if txt is None:
         return
     server_left_normally = run.outcome == 'finished' and run.server_exc is None
+    if run.server_exc is not None and not run.scn.get('abort') and an.offending is None and \
+            'json_handler/writer.py' in (run.server_exc[2] or ''):
+        # nobody misbehaved and nobody interrupted: the log writer itself raised on a board result
+        # (whatever it had put on the stream by then, it could not turn this sequence of results
+        # into a document)
+        an.add('C12', 'writer-failed', f'the log writer raised {run.server_exc[0]}: '
+                                       f'{run.server_exc[1][:200]} on a board result of a '
+                                       f'conforming session; document so far: '
+                                       f'{an.log_json_error or "parses"}',
+               key='writer-failed:' + run.server_exc[0])
     if an.records is None:
         # whether an unterminated document is acceptable after an abort is C13's question; C12
         # speaks about documents the writer was allowed to finish
